@@ -117,6 +117,31 @@ open TongoGen.TlbTypes in
 theorem impl_eq_spec_SignedMsgBody : implementsSpec env desc_wallet_SignedMsgBody Spec.SignedMsgBody = true := by
   decide +kernel
 
+/-- **impl_eq_spec_hashmapE**: a Go `HashmapE[K, V]` against `HashmapE n X` of the schema. The matcher asks for the
+key width `n`, a key descriptor that implements the schema's key type and a value descriptor that implements `X`;
+then every in-domain dictionary (empty or not) is written as `hme_empty$0` / `hme_root$1 root:^(Hashmap n X)` where the
+tree is `Tongo.Hashmap.marshal` over the keys and values AS THE SCHEMA SERIALISES THEM. That `marshal` writes a valid
+`hm_edge` / `hmn_leaf` / `hmn_fork` tree with the shortest labels and the given meaning is C05
+(`encode_sorted_tree`, `labels_shortest`); what C04 adds is that keys and values inside it are schema-exact
+(`Lemmas/TlbSpec.agree_dictE`, by monotonicity of `marshal` in the value codec: `Hashmap.marshal_mono_on`). -/
+theorem impl_eq_spec_hashmapE (env : Env) (k t : Ty) (n : Nat) (sk st : SType)
+    (hm : implementsSpec env (.dictE k t) (.hashmapE n sk st) = true)
+    (fuel : Nat) (v : Val) (hd : inDom env fuel (.dictE k t) v = true) (b b' : Builder)
+    (he : encode env fuel (.dictE k t) v b = .ok b') :
+    ∃ g c, specChunk senv g (.hashmapE n sk st) v = some c ∧ b' = b.app c.1 c.2 :=
+  impl_eq_spec env _ _ hm fuel v hd b b' he
+
+set_option maxRecDepth 20000 in
+/-- the extra-currency dictionary `{7 ↦ 1000}` according to the schema: `hme_root$1`, one reference to the root leaf
+with label `hml_long$10` of 32 bits and the value `VarUInteger 32` (TEST on a literal) -/
+example :
+    (match specChunk senv 8 Spec.ExtraCurrencyCollection
+        (Val.list [Val.list [Val.list [.int 7], Val.list [.int 1000]]]) with
+      | some ([true], [Cell.mk 0 0 bits []]) =>
+        decide (bits = [true, false] ++ natToBits 6 32 ++ natToBits 32 7 ++ natToBits 5 2 ++ natToBits 16 1000)
+      | _ => false) = true := by
+  decide
+
 /-- **impl_eq_spec_MsgAddress_codec**: the hand-written `MsgAddress.MarshalTLB` writes what the four constructors
 of MsgAddressInt / MsgAddressExt prescribe (anycast depth 1..30, extern length 0..511) -/
 theorem impl_eq_spec_MsgAddress_codec (v : Val) (b b' : Builder) (hd : Prim.msgAddress.inDom v = true)
